@@ -26,13 +26,13 @@ impl<'a> WireFormat<'a> for ZONEMD<'a> {
     where
         Self: Sized,
     {
-        let serial = u32::from_be_bytes(data[*position..*position + 4].try_into()?);
+        let serial = u32::from_be_bytes(data.get(*position..*position + 4).ok_or(crate::SimpleDnsError::InsufficientData)?.try_into()?);
         *position += 4;
-        let scheme = data[*position];
+        let scheme = *data.get(*position).ok_or(crate::SimpleDnsError::InsufficientData)?;
         *position += 1;
-        let algorithm = data[*position];
+        let algorithm = *data.get(*position).ok_or(crate::SimpleDnsError::InsufficientData)?;
         *position += 1;
-        let digest = Cow::Borrowed(&data[*position..]);
+        let digest = Cow::Borrowed(data.get(*position..).ok_or(crate::SimpleDnsError::InsufficientData)?);
         *position += digest.len();
 
         Ok(Self {
